@@ -171,7 +171,7 @@ REG.contract(
     "nixio.util.units.scalable", assumed=True, props=[],
     params=dict(units_a=Str, units_b=Str), result=Bool,
     let="a = units_a; b = units_b",
-    ensures=["result == %s" % SCALABLE],
+    ensures=["result == %s" % SCALABLE, "result == scalable_spec(units_a, units_b)"],
     note="string form; verified as nixio.util.units.scalable#str (the list form is the pointwise conjunction)")
 
 REG.contract(
